@@ -189,7 +189,15 @@ func c13Run(ctx *run.Ctx, id run.CaseID) {
 			}
 		}
 		// PointInPolygon
-		if len(subj) > 0 && len(subj[0]) >= 3 {
+		flat := true
+		if len(subj) > 0 {
+			for _, v := range subj[0] {
+				if v.Y != subj[0][0].Y {
+					flat = false
+				}
+			}
+		}
+		if len(subj) > 0 && len(subj[0]) >= 3 && !flat { // C14's domain: polygons not contained in one horizontal line
 			for k := 0; k < 12; k++ {
 				var p Pt
 				if k < 6 {
